@@ -40,6 +40,15 @@ NEEDS = {
  'C17-r2': 'JitterRng after at least one collection: Debug prints mem_prev_index (derived from timer ^ pool)',
  'C18-r2': 'XorShiftRng::fill_bytes(&mut []) : `(dest.len() - 1) / 4` panics with overflow checks on, wraps to a harmless no-op with them off',
  'C19-r2': 'another JitterRng instance completes test_timer() before this one is constructed: new_with_timer takes its rounds from a process-wide atomic',
+ # ---- round 3: additive changes only (new overrides, new impls, new fast paths; existing bodies untouched) ----
+ 'C05-r3': 'IsaacRng::fill_bytes gets a bulk fast path in front of the existing forwarding: a request of more than one whole block issued mid-block lets a newer block overtake the buffered words (words counted as bytes)',
+ 'C08-r3': 'Xoshiro256PlusPlus overrides try_from_rng (four try_next_u64 draws, builds the state itself): a source delivering an all-zero block yields the zero state',
+ 'C09-r3': 'Xoshiro128PlusPlus overrides try_from_rng with four try_next_u32 draws: disagrees with from_rng for every source whose next_u32 is not the 4-byte chunking of its fill_bytes (any 64-bit-native source)',
+ 'C10-r3': 'Hc128Rng / Hc128Core get hand-written Clone with an in-place clone_from: source on a block boundary, destination mid-block - the destination keeps its own read position and stale buffer',
+ 'C11-r3': 'IsaacArray gets serde(skip, default) on the buffer "to halve the snapshot": every snapshot taken mid-block restores with the unconsumed words zeroed',
+ 'C16-r3': 'JitterRng overrides Clone::clone_from and never resets the destination\'s pending-half flag: b.next_u32(); a.next_u64(); b.clone_from(&a); b.next_u32() hands out the high half of a\'s value without reading the timer',
+ 'C17-r3': 'Isaac64Core Debug gets a "pretty" path for {:#?} that prints `blocks: self.b` (one letter off the counter c): state and first buffered output word, after at least one block',
+ 'C19-r3': 'process-wide cache of the zero-seed replacement (new module): extended wrongly when a larger seed follows a smaller one, so from_seed([0; 64]) depends on which other types were zero-seeded before',
 }
 def main():
     outcomes = json.load(open(os.path.join(ROOT, 'seeded', 'outcomes.json'))) if os.path.exists(os.path.join(ROOT, 'seeded', 'outcomes.json')) else {}
@@ -50,7 +59,7 @@ def main():
         conf = open(os.path.join(p, 'confirm.txt')).read().strip().splitlines() if os.path.exists(os.path.join(p, 'confirm.txt')) else []
         meta = dict(
             property=d.split('-')[0],
-            round=2 if d.endswith('-r2') else 1,
+            round=3 if d.endswith('-r3') else 2 if d.endswith('-r2') else 1,
             breaks='property %s of /verif/properties.jsonl' % d.split('-')[0],
             needs_to_manifest=NEEDS.get(d, ''),
             files=dict(patch='patch.diff', demonstration='demo_test.rs', author_notes='NOTES.md'),
